@@ -296,6 +296,9 @@ impl IdWorld {
         for u in URIS.iter() {
             quoted.push(u.to_string());
         }
+        for u in ["urn: x", "urn: y", "urn:v", "https://www.w3.org/1999/xhtml", "http://www.w3.org/1998/Math/MathML", "http://www.w3.org/2000/svg"] {
+            quoted.push(u.to_string());
+        }
         cands.sort();
         cands.dedup();
         for c in &cands {
@@ -485,14 +488,14 @@ fn apply(w: &mut IdWorld, op: &IdOp, stats: &mut Stats, rng_salt: u64) -> Result
             let _ = w.x.html5();
             stats.inc("op/html5/ok");
             // html5() registers the XHTML/MathML/SVG namespaces and element names
-            for u in ["http://www.w3.org/1999/xhtml", "http://www.w3.org/1998/Math/MathML", "http://www.w3.org/2000/svg"] {
+            for u in ["https://www.w3.org/1999/xhtml", "http://www.w3.org/1999/xhtml", "http://www.w3.org/1998/Math/MathML", "http://www.w3.org/2000/svg"] {
                 if let Some(id) = w.x.namespace(u) {
                     w.rec_ns(u, id)?;
                 }
             }
             let nss: Vec<(String, NamespaceId)> = w.ns.iter().map(|(k, val)| (k.clone(), *val)).collect();
             // everything the generator's finite string pools can ask for later is learned now
-            let mut cands: Vec<&str> = vec!["html", "br", "script", "style", "pre", "textarea", "span", "div", "area", "img", "xml", "", "é-ü"];
+            let mut cands: Vec<&str> = vec!["html", "br", "script", "style", "pre", "textarea", "span", "div", "area", "img", "xml", "", "é-ü", "p", "table", "TABLE", "xmlns"];
             cands.extend(LOCALS.iter().copied());
             cands.extend(PREFIXES.iter().copied());
             cands.extend(URIS.iter().copied());
@@ -594,11 +597,12 @@ fn gen_ops(rng: &mut Rng, run_index: u64) -> Vec<IdOp> {
     let n = rng.range(8, 60);
     let long = "x".repeat(300);
     let pool = |rng: &mut Rng| -> String {
-        match rng.below(10) {
+        match rng.below(11) {
             0 => String::new(),
             1 => long.clone(),
             2 => format!("fresh{}", rng.below(100000)),
             3 => rng.pick_str(&URIS).to_string(), // equal strings across the three tables
+            8 => rng.pick_str(&["div", "p", "table", "html", "br", "TABLE"]).to_string(), // names html5() knows
             4 => rng.pick_str(&PREFIXES).to_string(),
             5 => "xml".to_string(),
             6 => "é-ü".to_string(),
@@ -611,6 +615,8 @@ fn gen_ops(rng: &mut Rng, run_index: u64) -> Vec<IdOp> {
             1 => XML_NS.to_string(),
             2 => format!("urn:fresh:{}", rng.below(1000)),
             3 => rng.pick_str(&LOCALS).to_string(),
+            // the namespaces html5() registers (the first is xot's spelling of the XHTML namespace)
+            4 => rng.pick_str(&["https://www.w3.org/1999/xhtml", "http://www.w3.org/1998/Math/MathML", "http://www.w3.org/2000/svg"]).to_string(),
             _ => rng.pick_str(&URIS).to_string(),
         }
     };
@@ -628,6 +634,26 @@ fn gen_ops(rng: &mut Rng, run_index: u64) -> Vec<IdOp> {
             13 | 14 | 15 => {
                 let fragment = rng.pct(30);
                 let mut t = gen::gen_xml_text(rng, fragment);
+                // less-travelled spellings: literal TAB / LF inside a namespace name (normalised to a
+                // space like in any attribute value), and an ordinary attribute called p:xmlns
+                if rng.pct(8) {
+                    t = t.replacen("=\"urn:x\"", "=\"urn:\tx\"", 1);
+                }
+                if rng.pct(8) {
+                    t = t.replacen("=\"urn:y\"", "=\"urn:\ny\"", 1);
+                }
+                if rng.pct(10) {
+                    for p in ["p", "q", "r"] {
+                        let decl = format!(" xmlns:{}=\"", p);
+                        if let Some(i) = t.find(&decl) {
+                            if let Some(j) = t[i + decl.len()..].find('"') {
+                                let at = i + decl.len() + j + 1;
+                                t.insert_str(at, &format!(" {}:xmlns=\"urn:v\"", p));
+                                break;
+                            }
+                        }
+                    }
+                }
                 if rng.pct(35) {
                     t = gen::damage_text(rng, &t);
                 }
